@@ -9,8 +9,8 @@ pub fn run_case(tr: &mut Trace, idx: u64, subseed: u64, steps: u32, wait: bool) 
 }
 
 pub fn run_case_log(tr: &mut Trace, idx: u64, subseed: u64, steps: u32, log: bool, wait: bool) {
-    tr.case(idx, subseed, &format!("job steps={steps}{}", if wait { " wait=1" } else { "" }));
     let mut sim = if wait { Sim::new_wait(subseed) } else { Sim::new(subseed) };
+    tr.case(idx, subseed, &format!("job steps={steps} {}{}", sim.header(), if wait { " wait=1" } else { "" }));
     for _ in 0..steps {
         if sim.panicked.is_some() {
             break;
@@ -71,7 +71,7 @@ pub fn main(mode: &str, args: &[String]) {
                 } else if line == "end" {
                     if let Some(h) = header.take() {
                         tr.line(&h);
-                        let mut sim = if h.split(' ').any(|t| t == "wait=1") { Sim::new_wait(0) } else { Sim::new(0) };
+                        let mut sim = Sim::for_replay(&h);
                         sim.replay(&acts);
                         if sim.panicked.is_none() {
                             sim.wait_reports();
